@@ -3,6 +3,8 @@
 (* evaluates the family selected by the JSON file IOEnv.VT_CFG                 *)
 (*   family "C17"|"C18"|"C27"|"C28", size "quick"|"thorough",                  *)
 (*   kinds [provider kinds], grepo [booleans]                                  *)
+(* (C17: import graphs, one and two languages; C18: faults and repairs; C27:   *)
+(*  parameter names and values; C28: offending texts and layouts)              *)
 (* and writes it to IOEnv.VT_OUT as a JSON list of scenario records.           *)
 EXTENDS LoaderRepo, IOUtils, SequencesExt
 
@@ -18,9 +20,15 @@ U(f) == CASE f = "a" -> "ua" [] f = "b" -> "ub" [] f = "c" -> "uc" [] f = "d" ->
 FilesN(n) == SubSeq(Ord, 1, n)
 GlobKind(k) == k \in {"plain_glob", "fqn_glob"}
 
-NoFault == [kind |-> "none", file |-> "-"]
-Load(f, how, given) == [op |-> "load", file |-> f, how |-> how, given |-> given]
-RepairOp == [op |-> "repair", file |-> "-", how |-> "-", given |-> <<>>]
+NoFault == [kind |-> "none", file |-> "-", at |-> "use"]
+Flt(k, f) == [kind |-> k, file |-> f, at |-> "use"]
+LoadV(f, how, given, vals) == [op |-> "load", file |-> f, how |-> how, given |-> given, vals |-> vals]
+Load(f, how, given) == LoadV(f, how, given, "std")
+RepairOp == [op |-> "repair", file |-> "-", how |-> "-", given |-> <<>>, vals |-> "-"]
+\* one language, with or without a global repository
+OneLang(F) == [f \in F |-> "A"]
+RepoOf(grepo) == [A |-> IF grepo THEN "r1" ELSE "-", B |-> "-"]
+DeclA(d) == [A |-> d, B |-> <<>>]
 
 \* files a model of f loads directly
 Direct(f, imports, glob, kind) ==
@@ -38,16 +46,19 @@ Shared(v, F) == IF v = 0 THEN {} ELSE IF v = 1 THEN (IF "b" \in F THEN {"b"} ELS
 BuiltinOf(v) == IF v = 0 THEN <<>> ELSE <<"s", "ub", "k">>
 
 \* a scenario whose references are all names visible by the documented lookup
-Mk(files, imports, glob, v, kind, grepo, declared, flt, session, pad, ind) ==
+MkX(files, lang, imports, glob, v, kind, repo, declared, flt, session, pad, ind) ==
   LET F    == Range(files)
       defs == [f \in F |-> <<U(f)>> \o (IF f \in Shared(v, F) THEN <<"s">> ELSE <<>>)]
       bi   == BuiltinOf(v)
       vis(f) == Range(defs[f]) \cup UNION {Range(defs[g]) : g \in Direct(f, imports, glob, kind)}
                   \cup Range(bi)
       refs == [f \in F |-> SelectSeq(NameOrd, LAMBDA n : n \in vis(f))]
-  IN [files |-> files, imports |-> imports, glob |-> glob, defs |-> defs, refs |-> refs,
-      pad |-> pad, ind |-> ind, kind |-> kind, grepo |-> grepo, builtin |-> bi,
+  IN [files |-> files, lang |-> lang, imports |-> imports, glob |-> glob, defs |-> defs, refs |-> refs,
+      lrefs |-> [f \in F |-> <<>>], pad |-> pad, ind |-> ind, kind |-> kind, repo |-> repo, builtin |-> bi,
       declared |-> declared, fault |-> flt, session |-> session]
+
+Mk(files, imports, glob, v, kind, grepo, declared, flt, session, pad, ind) ==
+  MkX(files, OneLang(Range(files)), imports, glob, v, kind, RepoOf(grepo), DeclA(declared), flt, session, pad, ind)
 
 Const(F, v) == [f \in F |-> v]
 ImpChoices(F, star) == {OrdSeq(S) : S \in SUBSET F} \cup (IF star THEN {<<"*">>} ELSE {})
@@ -64,30 +75,50 @@ Globs(files, kind) ==
 
 ----------------------------------------------------------------------------
 \* C17: every import graph, no fault; repeated and pre-cached loads
-C17Sessions(grepo, n) ==
+C17Sessions(grepo, n, kind) ==
   LET b == IF n > 1 THEN "b" ELSE "a" IN
-  IF grepo THEN {<<Load("a", "file", <<>>), Load("a", "file", <<>>), Load(b, "file", <<>>)>>,
-                 <<Load(b, "file", <<>>), Load("a", "strfile", <<>>)>>}
-  ELSE {<<Load("a", "file", <<>>), Load("a", "strfile", <<>>)>>}
+  (IF grepo THEN {<<Load("a", "file", <<>>), Load("a", "file", <<>>), Load(b, "file", <<>>)>>,
+                  <<Load(b, "file", <<>>), Load("a", "strfile", <<>>)>>}
+   ELSE {<<Load("a", "file", <<>>), Load("a", "strfile", <<>>)>>})
+  \cup \* a main model without file name takes part in multi-file loading with a GlobalRepo provider
+  (IF GlobKind(kind) THEN {<<Load("a", "str", <<>>), Load("a", "str", <<>>), Load(b, "file", <<>>)>>} ELSE {})
 
 C17N(n, full, vs) ==
   LET files == FilesN(n)  F == Range(files) IN
   UNION { { Mk(files, g, gl, v, k, gr, <<>>, NoFault, s, Const(F, 0), Const(F, 0)) :
-              v \in vs, g \in Graphs(F, k, full), gl \in Globs(files, k), s \in C17Sessions(gr, n) }
+              v \in vs, g \in Graphs(F, k, full), gl \in Globs(files, k), s \in C17Sessions(gr, n, k) }
           : k \in MCKinds, gr \in MCGrepo }
 
-FamC17(dummy) ==
-  IF Quick THEN C17N(1, TRUE, {0, 1, 2}) \cup C17N(2, TRUE, {0, 1, 2}) \cup C17N(3, FALSE, {1})
-  ELSE C17N(1, TRUE, {0, 1, 2}) \cup C17N(2, TRUE, {0, 1, 2}) \cup C17N(3, TRUE, {0, 1, 2})
-
-----------------------------------------------------------------------------
-\* C18: which file fails in which phase, pre-cached files, repaired reload
+\* two languages: the files of language B are dispatched to another metamodel; the
+\* repositories of the two metamodels are absent, separate or one shared object; a file is
+\* loaded directly (cached) before / after models of the other language import it
 Shapes3 == { [a |-> <<"b">>, b |-> <<"c">>, c |-> <<>>],
              [a |-> <<"b", "c">>, b |-> <<"c">>, c |-> <<>>],
              [a |-> <<"b">>, b |-> <<"c">>, c |-> <<"a">>],
              [a |-> <<"b", "c">>, b |-> <<>>, c |-> <<>>],
              [a |-> <<"c", "b">>, b |-> <<"a", "c">>, c |-> <<"b">>] }
+RepoCfgs == { [A |-> "-", B |-> "r2"], [A |-> "r1", B |-> "r2"], [A |-> "r1", B |-> "r1"], [A |-> "r1", B |-> "-"] }
+TwoLangs(F) == IF Quick /\ Cardinality(F) = 3
+               THEN {[f \in F |-> IF f \in S THEN "B" ELSE "A"] : S \in {{"b"}, {"c"}, {"b", "c"}}}
+               ELSE {l \in [F -> {"A", "B"}] : \E f, g \in F : l[f] # l[g]}
+C17MLSessions(F) ==
+  UNION {{ <<Load(p, "file", <<>>), Load("a", "file", <<>>), Load(p, "file", <<>>)>>,
+           <<Load("a", "file", <<>>), Load(p, "file", <<>>), Load("a", "strfile", <<>>)>> } : p \in F \ {"a"}}
+  \cup (IF Cardinality(F) = 3 THEN {<<Load("b", "file", <<>>), Load("a", "file", <<>>), Load("c", "file", <<>>)>>} ELSE {})
+C17ML(n) ==
+  LET files == FilesN(n)  F == Range(files) IN
+  UNION { { MkX(files, l, g, gl, 1, k, rc, DeclA(<<>>), NoFault, s, Const(F, 0), Const(F, 0)) :
+              l \in TwoLangs(F), rc \in RepoCfgs, gl \in Globs(files, k), s \in C17MLSessions(F),
+              g \in (IF GlobKind(k) THEN {Const(F, <<>>)} ELSE IF n = 3 THEN Shapes3 ELSE Graphs(F, k, FALSE)) }
+          : k \in MCKinds }
 
+FamC17(dummy) ==
+  (IF Quick THEN C17N(1, TRUE, {0, 1, 2}) \cup C17N(2, TRUE, {0, 1, 2}) \cup C17N(3, FALSE, {1})
+   ELSE C17N(1, TRUE, {0, 1, 2}) \cup C17N(2, TRUE, {0, 1, 2}) \cup C17N(3, TRUE, {0, 1, 2}))
+  \cup C17ML(2) \cup C17ML(3)
+
+----------------------------------------------------------------------------
+\* C18: which file fails in which phase, pre-cached files, repaired reload
 C18Graphs(n, kind) ==
   LET F == Range(FilesN(n)) IN
   IF GlobKind(kind) THEN {Const(F, <<>>)}
@@ -100,13 +131,16 @@ C18One(n, k, gr, g0) ==
       R   == Reach("a", g, files, k)
       pres(ff) == IF gr THEN {"-", "z"} \cup {p \in R \ {"a"} : ff \notin Reach(p, g, files, k)}
                   ELSE {"-"}
-  IN UNION { { Mk(filesz, g, files, 1, k, gr, <<>>, [kind |-> ph, file |-> ff],
+      \* the main model from a file, or from a string without file name (GlobalRepo
+      \* providers accept that with imports, ImportURI providers only without)
+      hows == {"file"} \cup (IF GlobKind(k) \/ g0["a"] = <<>> THEN {"str"} ELSE {})
+  IN UNION { { Mk(filesz, g, files, 1, k, gr, <<>>, Flt(ph, ff),
                   (IF p = "-" THEN <<>> ELSE <<Load(p, "file", <<>>)>>)
-                    \o <<Load("a", "file", <<>>), RepairOp, Load("a", "file", <<>>)>>
+                    \o <<Load("a", hw, <<>>), RepairOp, Load("a", hw, <<>>)>>
                     \o (IF gr THEN <<Load("a", "file", <<>>)>> ELSE <<>>)
                     \o (IF p = "-" THEN <<>> ELSE <<Load(p, "file", <<>>)>>),
                   Const(Fz, 0), Const(Fz, 0)) :
-                 ph \in {"syntax", "unknown", "objproc", "modelproc"}, p \in pres(ff) }
+                 ph \in {"syntax", "unknown", "objproc", "modelproc"}, p \in pres(ff), hw \in hows }
              : ff \in R }
 
 C18N(n) ==
@@ -137,8 +171,30 @@ C27One(k, gr, ng) ==
       d \in Declareds, gv \in Givens,
       how \in {"file", "strfile"} \cup (IF g["a"] = <<>> /\ ~GlobKind(k) THEN {"str"} ELSE {}) }
 
+\* parameter values: None and the other falsy values are values like any other
+C27Vals(k, gr, ng) ==
+  LET n == ng[1]  g == ng[2]  files == FilesN(n)  F == Range(files) IN
+  { Mk(files, g, files, 1, k, gr, d, NoFault, <<LoadV("a", "file", gv, vl)>>, Const(F, 0), Const(F, 0)) :
+      d \in Declareds, gv \in {<<"p">>, <<"p", "q">>, <<"zzz">>, <<"p", "zzz">>}, vl \in {"none", "falsy"} }
+
+\* closures over two languages: only the metamodel that is called checks the names, and
+\* every model of the closure gets the parameters, whatever its own metamodel declares
+C27MLGraphs(kind) ==
+  IF GlobKind(kind) THEN {<<3, Const({"a", "b", "c"}, <<>>), [a |-> "A", b |-> "B", c |-> "A"]>>}
+  ELSE {<<2, [a |-> <<"b">>, b |-> <<>>], [a |-> "A", b |-> "B"]>>,
+        <<3, [a |-> <<"b">>, b |-> <<"c">>, c |-> <<>>], [a |-> "A", b |-> "B", c |-> "A"]>>,
+        <<3, [a |-> <<"b", "c">>, b |-> <<"c">>, c |-> <<"a">>], [a |-> "B", b |-> "A", c |-> "B"]>>}
+C27ML(k, ngl) ==
+  LET n == ngl[1]  g == ngl[2]  l == ngl[3]  files == FilesN(n)  F == Range(files) IN
+  { MkX(files, l, g, files, 1, k, rc, [A |-> dA, B |-> dB], NoFault, <<LoadV("a", "file", gv, vl)>>,
+        Const(F, 0), Const(F, 0)) :
+      rc \in {[A |-> "-", B |-> "-"], [A |-> "r1", B |-> "r2"]},
+      dA \in {<<"p">>, <<"p", "q">>}, dB \in {<<>>, <<"p">>},
+      gv \in {<<"p">>, <<"q">>, <<"p", "project_root">>, <<"zzz">>}, vl \in {"std", "none"} }
+
 FamC27(dummy) ==
-  UNION { UNION { C27One(k, gr, ng) : ng \in C27Graphs(k) } : k \in MCKinds, gr \in MCGrepo }
+  UNION { UNION { C27One(k, gr, ng) \cup C27Vals(k, gr, ng) : ng \in C27Graphs(k) } : k \in MCKinds, gr \in MCGrepo }
+  \cup UNION { UNION { C27ML(k, ngl) : ngl \in C27MLGraphs(k) } : k \in MCKinds }
 
 ----------------------------------------------------------------------------
 \* C28: one offending text per scenario: kind x file of a chain a -> b -> c x layout
@@ -168,20 +224,35 @@ C28Faults(n, kind) ==
         THEN {[kind |-> "notunique", file |-> f, ref |-> r] : f \in F, r \in F}
         ELSE {})
 
+\* lv = 1: the references are the elements of one list reference `refs x, y` (separator),
+\* and the offending reference is an element of that list
+C28Sc(n, k, gr, flt, ly, how, lv, bi, extra) ==
+  LET files == FilesN(n)  F == Range(files)
+      rs == [f \in F |-> C28Refs(n, flt)[f] \o (IF f = "a" THEN extra ELSE <<>>)]
+  IN [files |-> files, lang |-> OneLang(F), imports |-> ChainImports(n, k), glob |-> files,
+      defs |-> [f \in F |-> <<U(f)>>],
+      refs |-> IF lv = 1 THEN Const(F, <<>>) ELSE rs,
+      lrefs |-> IF lv = 1 THEN rs ELSE Const(F, <<>>),
+      pad |-> [f \in F |-> IF f = "a" THEN ly[1] ELSE ly[3]],
+      ind |-> [f \in F |-> IF f = "a" THEN ly[2] ELSE ly[4]],
+      kind |-> k, repo |-> RepoOf(gr), builtin |-> bi, declared |-> DeclA(<<>>),
+      fault |-> [kind |-> flt.kind, file |-> flt.file, at |-> IF lv = 1 THEN "list" ELSE "use"],
+      session |-> <<Load("a", how, <<>>)>>]
+
+C28Hows(n, k) == {"file", "strfile"} \cup (IF n = 1 /\ ~GlobKind(k) THEN {"str"} ELSE {})
+
 FamC28(dummy) ==
-  UNION { LET files == FilesN(n)  F == Range(files) IN
-          { [files |-> files, imports |-> ChainImports(n, k), glob |-> files,
-             defs |-> [f \in F |-> <<U(f)>>], refs |-> C28Refs(n, flt),
-             pad |-> [f \in F |-> IF f = "a" THEN ly[1] ELSE ly[3]],
-             ind |-> [f \in F |-> IF f = "a" THEN ly[2] ELSE ly[4]],
-             kind |-> k, grepo |-> gr, builtin |-> <<>>, declared |-> <<>>,
-             fault |-> [kind |-> flt.kind, file |-> flt.file],
-             session |-> <<Load("a", how, <<>>)>>] :
+  UNION { { C28Sc(n, k, gr, flt, ly, how, lv, <<>>, <<>>) :
               flt \in {x \in C28Faults(n, k) :
                          x.kind # "notunique" \/ x.ref = x.file \/ x.ref = Importer(x.file)},
-              ly \in Layouts,
-              how \in {"file", "strfile"} \cup (IF n = 1 /\ ~GlobKind(k) THEN {"str"} ELSE {}) }
+              ly \in Layouts, how \in C28Hows(n, k), lv \in {0, 1} }
           : k \in MCKinds, gr \in MCGrepo, n \in {1, 2, 3} }
+  \cup \* the duplicates live in the builtin model (built from a string); the main model comes from
+       \* a file or from a string: both texts have no file name then
+  UNION { { C28Sc(n, k, gr, [kind |-> "notunique", file |-> "<builtin>", ref |-> "a"], ly, how, lv,
+                  <<"kb", "k2">>, <<"kb">>) :
+              ly \in Layouts, how \in C28Hows(n, k), lv \in {0, 1} }
+          : k \in MCKinds \cap {"plain_uri", "plain_search", "plain_glob"}, gr \in MCGrepo, n \in {1, 2} }
 
 ----------------------------------------------------------------------------
 \* (operators with a parameter: TLC evaluates parameterless constant definitions at start-up)
